@@ -157,4 +157,24 @@ def aa55_construction_sites(prog: Program, res: Resolver):
                 sites.append((fn, ct.node))
             elif ct.funcs and any(f.cls is target and f.name == "__init__" for f in ct.funcs) and ct.ctor is None:
                 sites.append((fn, ct.node))   # super().__init__ from a subclass
-    return sites
+    # a construction inside a helper outside the pinned inventory whose payload / response type come from the helper's
+    # parameters is specialised per call site of the helper (one virtual construction per caller, arguments substituted)
+    from .inventory import is_known
+    from .astutil import subst
+    from .calls import arg_for
+    out = []
+    for fn, call in sites:
+        params = set(fn.params) - {"self", "cls"} if not fn.is_lambda else set()
+        uses = {n.id for a in list(call.args) + [k.value for k in call.keywords] for n in ast.walk(a) if isinstance(n, ast.Name)} & params
+        callers = res.callers_of(fn) if uses and not is_known(fn, prog) and fn.name != "__init__" else []
+        if not callers:
+            out.append((fn, call))
+            continue
+        for ct in callers:
+            env = {}
+            for pn in fn.params:
+                a = arg_for(ct.node, fn, pn)
+                if a is not None and pn not in ("self", "cls"):
+                    env[pn] = a
+            out.append((ct.caller, ast.fix_missing_locations(ast.copy_location(subst(call, env), ct.node))))
+    return out
